@@ -122,6 +122,8 @@ pub struct Runner<B: Backend> {
     /// when false, `process_log` only keeps the books (concurrent phases in
     /// which the model is not constant)
     pub judge_log: bool,
+    /// executors unwound by a panic are expected (C05 panic faults)
+    pub allow_unwound: bool,
 }
 
 fn has_expr(p: &Program, f: &dyn Fn(&Expr) -> bool) -> bool {
@@ -209,6 +211,7 @@ impl<B: Backend> Runner<B> {
             defuse_kf1: true,
             kf1_defused_steps: 0,
             judge_log: true,
+            allow_unwound: false,
         }
     }
 
@@ -397,7 +400,7 @@ impl<B: Backend> Runner<B> {
             }
         }
         let rel = self.pending_release.take();
-        if !self.backend.after_step(rel) {
+        if !self.backend.after_step(rel).await {
             self.out.quiesce_timeouts += 1;
         }
     }
@@ -690,6 +693,9 @@ impl<B: Backend> Runner<B> {
                 return;
             }
         }
+        if let Some(gap) = self.backend.persistence_gap() {
+            self.out.violate("C07", format!("persistence stalled: {gap}"));
+        }
         if self.recomputed_since_open {
             self.restarted_after_recompute = true;
         }
@@ -763,6 +769,7 @@ impl<B: Backend> Runner<B> {
                 continue;
             }
             match inv.status {
+                InvStatus::Unwound if self.allow_unwound => {}
                 InvStatus::Unwound => viol.push((
                     "C01",
                     format!(
@@ -918,6 +925,11 @@ impl<B: Backend> Runner<B> {
             while weak.strong_count() > 0 && spins < 100_000 {
                 tokio::task::yield_now().await;
                 spins += 1;
+            }
+            if weak.strong_count() == 0 {
+                if let Some(gap) = self.backend.persistence_gap() {
+                    self.out.violate("C07", format!("persistence stalled: {gap}"));
+                }
             }
         }
     }
